@@ -161,6 +161,14 @@ void Stats::runSocket() {
 
 void Stats::processMsg(int sockfd) {
   std::array<char, 64> err_buf = {};
+  // Runs last, on every return path: ~Stats waits for this count to drop.
+  OOMD_SCOPE_EXIT {
+    // Notify while holding the lock: once the count is published as zero and
+    // the lock is released, ~Stats may destroy thread_exited_.
+    std::lock_guard<std::mutex> lock(thread_mutex_);
+    thread_count_--;
+    thread_exited_.notify_one();
+  };
   OOMD_SCOPE_EXIT {
     if (::close(sockfd) < 0) {
       OLOG << "Stats server error: closing file descriptor: "
@@ -216,11 +224,6 @@ void Stats::processMsg(int sockfd) {
     OLOG << "Stats server error: writing to socket: "
          << ::strerror_r(errno, err_buf.data(), err_buf.size());
   }
-  // Notify while holding the lock: once the count is published as zero and
-  // the lock is released, ~Stats may destroy thread_exited_.
-  std::lock_guard<std::mutex> lock(thread_mutex_);
-  thread_count_--;
-  thread_exited_.notify_one();
 }
 
 std::unordered_map<std::string, int> Stats::getAll() {
